@@ -29,6 +29,21 @@ SEEDS = [
  ('S22-C21-instant-distance-int', 'advE/C21', 'C21', 'an instant in the past that is numerically below the current event counter (e.g. counter 3, instant 2): the 16 bit wrap of the distance is lost', ''),
  ('S23-C22-cancel-while-update-pending', 'advE/C22', 'C22', 'latency > 0, listen_if_pending_transmit_data, a connection update whose instant is the next planned event and a notification queued before it (try_event_cancelation in state connection_changed)', ''),
  ('S24-C39-rejected-read-keeps-range', 'advE/C39', 'C39', 'a multi chunk Read in progress with the next data indication requested, a second Read command with a range outside the white list (rejected), then the pending indication is served', ''),
+ ('S25-C02-handle-in-cccd-gap', 'advI/C02', 'C02', 'a characteristic with attribute_handles<D,V,C> where C > V+1 and a Find Information / Read By Type whose start or end handle lies strictly inside that gap', ''),
+ ('S26-C03-primary-flag-cached', 'advI/C03', 'C03', 'a secondary service declared after a primary service with the same UUID width and a Read By Group Type range that contains both', 'missed at first: no declaration had a secondary service behind a primary one of the same UUID width; declaration B8 (primary, secondary, primary, all 16 bit) was added to C03/C04'),
+ ('S27-C04-include-end-128bit', 'advI/C04', 'C04', 'an include of a service with a 128 bit UUID that contains an attribute_handle<> gap inside it: the include declaration names a last handle that is too small', 'missed at first: no declaration had a handle gap inside a service that is included with a 128 bit include declaration; declaration B9 was added'),
+ ('S28-C10-include-not-counted', 'advJ/C10', 'C10', 'an include_service<> in (or before) the service of the notified characteristic: the PDU carries handle and bytes of the characteristic declaration', ''),
+ ('S29-C11-single-level-wipes-indication', 'advJ/C11', 'C11', 'a priority level with exactly one characteristic that has notify and indicate: indicate (sent, unconfirmed), indicate again + notify, the notification is dequeued and wipes the pending indication', ''),
+ ('S30-C14-uuid16-list-odd-space', 'advJ/C14', 'C14', 'a 16 bit UUID list that does not fit completely with an odd remaining space >= 5: one UUID too many is written past the buffer', ''),
+ ('S31-C18-splitring-exact-fit', 'advK/C18', 'C18', 'the ring in split state, a request of exactly the gap size and a PDU that uses the whole allocation (same change as S10, found independently)', ''),
+ ('S32-C19-malformed-start-keeps-reassembly', 'advK/C19', 'C19', 'an incomplete start fragment A, then a too short or oversized start fragment B, then a continuation: the delivered SDU mixes bytes of two SDUs', ''),
+ ('S33-C31-identifier-zero-after-wrap', 'advK/C31', 'C31', '255 completed Connection Parameter Update procedures on one channel object: the 256th request carries identifier 0', ''),
+ ('S34-C24-map-with-hole', 'advL/C24', 'C24', 'variable_advertising_channel_map with the map {37, 39}: channel 39 is never used', ''),
+ ('S35-C25-initiator-type-from-rxadd', 'advL/C25', 'C25', 'more than one advertising type configured, a white list with the connection filter on, a CONNECT_IND whose TxAdd differs from RxAdd', ''),
+ ('S36-C29-stale-disconnect-reason', 'advL/C29', 'C29', 'two connections on the same object: the first ends with a reason other than 0x08, the second is lost by supervision timeout and is reported with the reason of the first', ''),
+ ('S37-C34-ediv-rand-unencrypted', 'advM/C34', 'C34', 'pairing completes with bonding, link encrypted, one poll sends the LTK, encryption is paused, the next poll sends EDIV and Rand in the clear', ''),
+ ('S38-C35-passkey-entry-authenticated', 'advM/C35', 'C35', 'the combined manager, an SC pairing and IO capabilities that map to passkey entry (executed as just works but reported authenticated)', ''),
+ ('S39-C36-lesc-oob-needs-both', 'advM/C36', 'C36', 'an SC pairing where exactly one side has OOB data (LESC must choose OOB, falls through to the IO mapping)', ''),
 ]
 def logs(pattern):
     out = ''
@@ -36,7 +51,7 @@ def logs(pattern):
         try: out += open(f, errors='replace').read()
         except OSError: pass
     return out
-confirm = logs('/tmp/seed_confirm2.log')
+confirm = logs('/tmp/seed_confirm2.log') + logs('/tmp/seed_confirm3.log') + logs('/tmp/seed_confirm4.log')
 checks = logs('/tmp/seed_check*.log') + logs('/tmp/c12_mode3.log') + logs('/tmp/seed_extra.log')
 for sid, src, prop, needs, remark in SEEDS:
     sdir = '/tmp/seed/' + src
